@@ -274,7 +274,7 @@ def fmt_place(p):
             s = "(*%s)" % s
         elif isinstance(e, list):
             if e[0] == "f":
-                s += ".%d" % e[1]
+                s += ".%s" % (e[2] if len(e) > 2 and e[2] else e[1])
             elif e[0] == "d":
                 s = "(%s as %s)" % (s, e[2] if e[2] else e[1])
             elif e[0] == "i":
